@@ -404,7 +404,7 @@ fn c10_q_rw_write_vs_read_unlock() {
 /// C10: blocking read() vs the writer releasing at any point.
 #[kani::proof]
 #[kani::unwind(5)]
-fn c10_t_rw_read_vs_write_unlock() {
+fn c10_x_rw_read_vs_write_unlock() {
   with_pick(40, |at| {
   let l_stack = HybridRwLock::new(0u8);
   let l: &'static HybridRwLock<u8> = unsafe { &*(&l_stack as *const HybridRwLock<u8>) };
